@@ -12,6 +12,29 @@ class CellParserError(Exception):
     pass
 
 
+class ReportingUndefined(StrictUndefined):
+    # StrictUndefined fails when printed, but not when it is an element of a list,
+    # tuple or dict that is printed: containers print the repr() of their elements.
+    __slots__ = ()
+    __repr__ = StrictUndefined.__str__
+
+
+def find_undefined(value):
+    # The undefined object in a template result, also inside (nested) containers
+    if isinstance(value, Undefined):
+        return value
+    if isinstance(value, dict):
+        # (it cannot be a key: hashing it fails)
+        value = value.values()
+    elif not isinstance(value, (list, tuple, set)):
+        return None
+    for item in value:
+        found = find_undefined(item)
+        if found is not None:
+            return found
+    return None
+
+
 class CellParser:
     class BooleanWrapper:
         def __init__(self, val=False):
@@ -35,13 +58,13 @@ class CellParser:
         return eval(string, {}, context)
 
     def __init__(self):
-        self.env = Environment(undefined=StrictUndefined)
+        self.env = Environment(undefined=ReportingUndefined)
         self.env.filters["escape"] = CellParser.escape_string
         self.env.filters["eval"] = CellParser.evaluate_string
         self.native_env = NativeEnvironment(
             variable_start_string="{@",
             variable_end_string="@}",
-            undefined=StrictUndefined,
+            undefined=ReportingUndefined,
         )
         self.native_env.filters["escape"] = CellParser.escape_string
         self.native_env.filters["eval"] = CellParser.evaluate_string
@@ -129,10 +152,12 @@ class CellParser:
 
         try:
             result = env.from_string(stripped).render(context)
-            if isinstance(result, Undefined):
+            undefined = find_undefined(result)
+            if undefined is not None:
                 # A native template naming an undefined variable evaluates to the
-                # undefined object itself; using it raises the error.
-                str(result)
+                # undefined object itself, or to a list, tuple or dict that holds it;
+                # using it raises the error.
+                str(undefined)
             return result
         except Exception as e:
             LOGGER.critical(
